@@ -48,9 +48,15 @@ Definition side_counts_ok (b : board) (w : bool) : bool :=
 Definition counts_ok (b : board) : bool := side_counts_ok b true && side_counts_ok b false.
 
 (** a position of the domain of C15: accepted by the FEN reader's rules, counts obtainable,
-    en-passant right only when it can be used *)
+    en-passant right only when it can be used, and the square behind the e.p. square is empty *)
+(** the pawn that made the double step came from the square behind the e.p. square: it is empty
+    (true of every position reached by play; not looked at by the FEN reader) *)
+Definition ep_origin_ok (sp : spos) : bool :=
+  (sp_ep sp =? -1) ||
+  N.eqb (at_ (sp_board sp) (file_of (Z.to_N (sp_ep sp))) (rank_of (Z.to_N (sp_ep sp)) + (if sp_white sp then 1 else -1))) EMPTY.
+
 Definition rev_domain (sp : spos) : bool :=
-  accepted sp && counts_ok (sp_board sp) && spos_eqb (fixup_spec sp) sp.
+  accepted sp && counts_ok (sp_board sp) && spos_eqb (fixup_spec sp) sp && ep_origin_ok sp.
 
 (** an un-move as the real code reports it *)
 Record sunmove := mkSUn { su_move : move; su_cap : piece; su_castle : N; su_ep : Z }.
